@@ -19,7 +19,7 @@ def _sustain(s):
 
 
 def obs_event_base(e):
-    return {"tick": int(e.tick), "us": td_us(e.timestamp), "idx": int(e._proximal_bpm_event_index)}
+    return {"tick": int(e.tick), "us": td_us(e.timestamp), "idx": int(getattr(e, "_proximal_bpm_event_index", -1))}
 
 
 def obs_note(e):
